@@ -223,8 +223,12 @@ fn child(case: &C05Case, fd: i32) {
         for s in &taken {
             let mut cur: libc::sigaction = unsafe { std::mem::zeroed() };
             unsafe { libc::sigaction(*s, std::ptr::null(), &mut cur) };
+            // exactly these two (plus the C library's own SA_RESTORER): anything inherited from a
+            // handler that was there before - one-shot, no-defer, ... - changes how the taken-over
+            // signal behaves for the rest of the process
             let want = libc::SA_RESTART | libc::SA_SIGINFO;
-            if cur.sa_sigaction != handler || (cur.sa_flags & want) != want {
+            const SA_RESTORER: libc::c_int = 0x0400_0000;
+            if cur.sa_sigaction != handler || (cur.sa_flags & !SA_RESTORER) != want {
                 bad.push(*s);
             }
         }
